@@ -426,7 +426,7 @@ class StrategyBase(Node):
         Current price.
         """
         if self.root.stale:
-            self.root.update(self.now, None)
+            self.root.update(self.root.now, None)
         return self._price
 
     @property
@@ -435,7 +435,7 @@ class StrategyBase(Node):
         TimeSeries of prices.
         """
         if self.root.stale:
-            self.root.update(self.now, None)
+            self.root.update(self.root.now, None)
         return self._prices.loc[: self.now]
 
     @property
@@ -444,7 +444,7 @@ class StrategyBase(Node):
         TimeSeries of values.
         """
         if self.root.stale:
-            self.root.update(self.now, None)
+            self.root.update(self.root.now, None)
         return self._values.loc[: self.now]
 
     @property
@@ -453,7 +453,7 @@ class StrategyBase(Node):
         TimeSeries of notional values.
         """
         if self.root.stale:
-            self.root.update(self.now, None)
+            self.root.update(self.root.now, None)
         return self._notl_values.loc[: self.now]
 
     @property
@@ -470,7 +470,7 @@ class StrategyBase(Node):
         TimeSeries of unallocated capital.
         """
         if self.root.stale:
-            self.root.update(self.now, None)
+            self.root.update(self.root.now, None)
         return self._cash.loc[: self.now]
 
     @property
@@ -479,7 +479,7 @@ class StrategyBase(Node):
         TimeSeries of fees.
         """
         if self.root.stale:
-            self.root.update(self.now, None)
+            self.root.update(self.root.now, None)
         return self._fees.loc[: self.now]
 
     @property
@@ -488,7 +488,7 @@ class StrategyBase(Node):
         TimeSeries of flows.
         """
         if self.root.stale:
-            self.root.update(self.now, None)
+            self.root.update(self.root.now, None)
         return self._all_flows.loc[: self.now]
 
     @property
@@ -498,7 +498,7 @@ class StrategyBase(Node):
         """
         if self._bidoffer_set:
             if self.root.stale:
-                self.root.update(self.now, None)
+                self.root.update(self.root.now, None)
             return self._bidoffer_paid
         else:
             raise Exception('Bid/offer accounting not turned on: "bidoffer" argument not provided during setup')
@@ -510,7 +510,7 @@ class StrategyBase(Node):
         """
         if self._bidoffer_set:
             if self.root.stale:
-                self.root.update(self.now, None)
+                self.root.update(self.root.now, None)
             return self._bidoffers_paid.loc[: self.now]
         else:
             raise Exception('Bid/offer accounting not turned on: "bidoffer" argument not provided during setup')
